@@ -323,7 +323,7 @@ def run_check(prop: str, tier: str, master: int, n_runs=None, budget_s=None, cfg
                     a_i += 1
             tasks = merged
     if budget_s is None:
-        budget_s = float(os.environ.get("VERIF_BUDGET_S", 0) or (170 if tier == "quick" else 2400))
+        budget_s = core.budget(tier)
     results, errors, skipped = core.run_pool(worker, tasks, cap_s=900, budget_s=budget_s)
     results.sort(key=lambda r: r["index"])
     # ---- aggregate ------------------------------------------------------------------------
